@@ -32,6 +32,15 @@ def scratch():
             shutil.copytree(s, os.path.join(d, sub))
         else:
             shutil.copy(s, os.path.join(d, sub))
+    # /repo's working tree mixes CRLF (checked out by .gitattributes) and LF (files touched by the fix: commits): normalise
+    # the scratch copy to LF so that `git apply` works outside a repository; line endings do not change behaviour
+    for root, _, files in os.walk(os.path.join(d, "src")):
+        for f in files:
+            if f.endswith(".py"):
+                p = os.path.join(root, f)
+                b = open(p, "rb").read()
+                if b"\r\n" in b:
+                    open(p, "wb").write(b.replace(b"\r\n", b"\n"))
     return d
 
 
@@ -63,7 +72,7 @@ def verify(sid, props=None):
     try:
         demo = os.path.join(sd, "demo.py")
         rc0, out0 = run_demo(d, demo)
-        rc, out = sh(["git", "apply", "--unsafe-paths", "--directory", d, os.path.join(sd, "patch.diff")], cwd=d)
+        rc, out = sh(["git", "apply", "--ignore-whitespace", "--unsafe-paths", "--directory", d, os.path.join(sd, "patch.diff")], cwd=d)
         if rc != 0:
             rc, out = sh(["patch", "-p1", "-i", os.path.join(sd, "patch.diff")], cwd=d)
         applied = rc == 0
